@@ -39,20 +39,36 @@ def http(url, data=None, timeout=5):
         return r.read()
 
 
-def decode_members(raw):
-    """payload of the complete gzip members of a file (a truncated trailing member contributes nothing)"""
+def decode_strict(raw):
+    """gzip file → (payload of the complete members, status). status: "ok" = complete members and nothing else;
+    "torn" = the file ends inside a member (what a kill / os.Exit leaves of the open member; contributes nothing);
+    "corrupt" = garbage where a member has to start, broken deflate stream or checksum (audit C29: the old decoder
+    silently stopped there)"""
     out = b""
     while raw:
         d = zlib.decompressobj(16 + zlib.MAX_WBITS)
         try:
             part = d.decompress(raw)
         except zlib.error:
-            return out
+            return out, "corrupt"
         if not d.eof:
-            return out
+            return out, "torn"
         out += part
         raw = d.unused_data
-    return out
+    return out, "ok"
+
+
+def decode_members(raw):
+    return decode_strict(raw)[0]
+
+
+def gz_status(root):
+    res = {}
+    for base, _, files in os.walk(root):
+        for f in files:
+            p = os.path.join(base, f)
+            res[os.path.relpath(p, root)] = decode_strict(open(p, "rb").read())[1]
+    return res
 
 
 def tree(root, gz):
@@ -60,6 +76,8 @@ def tree(root, gz):
     for base, _, files in os.walk(root):
         for f in files:
             p = os.path.join(base, f)
+            if os.path.relpath(p, root).split(os.sep)[0] not in ("o", "w"):
+                continue
             raw = open(p, "rb").read()
             res[os.path.relpath(p, root)] = decode_members(raw) if gz else raw
     return res
@@ -127,10 +145,13 @@ def unescape(s):
 
 def parse_trace(path, dirs, gz):
     """strace log of the real binary → per-message events for `drv_e8 trm`:
-       m:<file>:<n>  the record of message n was written to file <file>   (plain output: the write(2) whose
-                     data is the body; gzip output: not visible — the *receipt* of message n counts as a write
-                     to pseudo-file 0 and every fsync of a data file as an fsync of 0: a necessary condition)
-       s:<file>      fsync;   f:<n>  `FIN <id>` written to the nsqd socket.
+       m:<file>:<n>  the record of message n was written to file <file>. Plain output: the write(2) whose data is
+                     the body. gzip output (audit C30.5 — it used to be "receipt of the message", which made the checker
+                     accept nearly anything): the bytes of every write(2) to a data file are re-assembled per file and
+                     decoded; the event is emitted at the write(2) that *completes the gzip member* (the one carrying
+                     its trailer) whose payload holds the body as a whole line. So FIN n is accepted only after the
+                     member with n's record was closed, reached the file, and the file was fsynced afterwards.
+       s:<file>      fsync of that file;   f:<n>  `FIN <id>` written to the nsqd socket.
     Message ids come from the MESSAGE frames read from the socket (id → body)."""
     fds, names, ev, pend = {}, {}, [], {}
     sock = None
@@ -140,6 +161,8 @@ def parse_trace(path, dirs, gz):
     num_body = {}     # number -> body
     fin_bodies = collections.Counter()   # body -> number of FIN commands written for it
     nfin = 0
+    gzbuf = {}        # gzip: file -> bytes written so far that are not yet part of a complete member
+    stats = {"gz_members": 0, "gz_corrupt": 0, "record_writes": 0}
     for raw in open(path, errors="replace"):
         m = re.match(r"^(\d+)\s+(.*)$", raw.rstrip("\n"))
         if not m:
@@ -174,6 +197,27 @@ def parse_trace(path, dirs, gz):
                     if not gz and data in body_ids:
                         for k in body_ids[data]:
                             ev.append("m:%d:%d" % (fds[fd], k))
+                            stats["record_writes"] += 1
+                    elif gz:
+                        fno = fds[fd]
+                        buf = gzbuf.get(fno, b"") + data
+                        while buf:
+                            d = zlib.decompressobj(16 + zlib.MAX_WBITS)
+                            try:
+                                part = d.decompress(buf)
+                            except zlib.error:
+                                stats["gz_corrupt"] += 1
+                                buf = b""
+                                break
+                            if not d.eof:
+                                break
+                            stats["gz_members"] += 1
+                            for ln in part.split(b"\n")[:-1]:
+                                for k in sorted(set(body_ids.get(ln, []))):
+                                    ev.append("m:%d:%d" % (fno, k))
+                                    stats["record_writes"] += 1
+                            buf = d.unused_data
+                        gzbuf[fno] = buf
                 elif fd == sock:
                     for mf in re.finditer(rb"FIN ([0-9a-f]{16})\n", data):
                         nfin += 1
@@ -194,13 +238,11 @@ def parse_trace(path, dirs, gz):
                         k = idnum.setdefault(frame[10:26], len(idnum) + 1)
                         body_ids.setdefault(frame[26:], []).append(k)
                         num_body[k] = frame[26:]
-                        if gz:
-                            ev.append("m:0:%d" % k)
             continue
         mo = re.match(r"(fsync|fdatasync)\((\d+)\s*\)\s+= 0", l)
         if mo and int(mo.group(2)) in fds:
-            ev.append("s:%d" % (0 if gz else fds[int(mo.group(2))]))
-    return ev, nfin, fin_bodies
+            ev.append("s:%d" % fds[int(mo.group(2))])
+    return ev, nfin, fin_bodies, stats
 
 
 def run(ctx, rounds):
@@ -284,11 +326,28 @@ def run(ctx, rounds):
             files = tree(root, gz)
             lines = whole_lines(files)
             present = sum(1 for b in bodies if lines[b] > 0)   # bodies carry a unique tag and no newline
-            tr, nfin, fin_bodies = parse_trace(strace_log, [os.path.join(root, "o"), os.path.join(root, "w")], gz)
+            tr, nfin, fin_bodies, tstats = parse_trace(strace_log, [os.path.join(root, "o"), os.path.join(root, "w")], gz)
             rc, ans = ctx.driver("e8", stdin="trm " + " ".join(tr) + "\n")
             ctx.evaluations += 1
             rec = {"round": rnd, "stop": stop, "gzip": gz, "workdir": workdir, "published": len(bodies), "owed": still,
                    "present": present, "fin_writes": nfin, "trace_events": len(tr), "checker": ans.strip(), "hups": hups}
+            rec.update(tstats)
+            if gz:
+                # strict decodability (audit C29): nothing corrupt; at most one file ends in an unfinished member (the
+                # one that was open when the process died); none after a clean exit
+                gst = gz_status(root)
+                gst = {k: v for k, v in gst.items() if k.split(os.sep)[0] in ("o", "w")}
+                rec["gz_files"] = dict(collections.Counter(gst.values()))
+                ntorn = sum(1 for v in gst.values() if v == "torn")
+                bad = sorted(k for k, v in gst.items() if v == "corrupt")
+                if bad or tstats["gz_corrupt"]:
+                    ctx.violation("tofile-e2e-gzip-corrupt", "gzip output of the real nsq_to_file does not decompress to its end: %s "
+                                  "(corrupt streams in the write trace: %d; %s)" % (bad, tstats["gz_corrupt"], json.dumps(rec)),
+                                  json.dumps({"opts": opts, "stop": stop, "rec": rec}) + "\n")
+                if ntorn > 1 or (ntorn and tool.returncode == 0 and stop != "kill"):
+                    ctx.violation("tofile-e2e-gzip-torn", "%d gzip output file(s) end in an unfinished member after %s (exit %s) (%s)"
+                                  % (ntorn, stop, tool.returncode, json.dumps(rec)),
+                                  json.dumps({"opts": opts, "stop": stop, "rec": rec}) + "\n")
             if ans.strip() != "ok":
                 ctx.violation("tofile-e2e-syscall", "real nsq_to_file wrote a FIN to nsqd while a written output file was not yet "
                               "fsynced (%s)" % json.dumps(rec), json.dumps({"opts": opts, "stop": stop}) + "\n" + " ".join(tr) + "\n")
